@@ -9,7 +9,9 @@ import (
 
 	"pgregory.net/rapid"
 
+	"verif/harness/ev"
 	"verif/harness/ref"
+	"verif/harness/sim"
 )
 
 func TestMain(m *testing.M) {
@@ -171,4 +173,10 @@ func mustNoPanic(f func()) (panicked interface{}) {
 func refTorsion(i int) [2]*big.Int {
 	tp := ref.Ed.Torsion()[i%8]
 	return [2]*big.Int{tp.X, tp.Y}
+}
+
+func init() {
+	// a party call that does not return is a violation of whatever property the case belongs to
+	// ("every call returns"); the simulator's watchdog reports it through the recorder of the case in flight
+	sim.OnHang = ev.ReportHang
 }
